@@ -98,6 +98,7 @@ type c18Terms struct {
 	ids map[string]int
 	// cur: parameter bindings of the frame whose values are being evaluated (see c18Frame)
 	cur   c18Env
+	iter  map[*ssa.Phi]int64 // index bindings of the unrolled walks of the current frame
 	saved []c18TermCtx
 	// subst: construction-time fields of the writer's state, replaced by the
 	// term the constructor stored (in terms of the constructor's inputs)
@@ -105,20 +106,21 @@ type c18Terms struct {
 }
 
 type c18TermCtx struct {
-	cur c18Env
-	ctx []*ssa.Call
+	cur  c18Env
+	ctx  []*ssa.Call
+	iter map[*ssa.Phi]int64
 }
 
 // enter/leave: evaluate terms in the context of an expanded frame.
 func (tt *c18Terms) enter(fr *c18Frame) {
-	tt.saved = append(tt.saved, c18TermCtx{tt.cur, tt.ctx})
-	tt.cur, tt.ctx = fr.env, append([]*ssa.Call{}, fr.chain...)
+	tt.saved = append(tt.saved, c18TermCtx{tt.cur, tt.ctx, tt.iter})
+	tt.cur, tt.ctx, tt.iter = fr.env, append([]*ssa.Call{}, fr.chain...), fr.iter
 }
 
 func (tt *c18Terms) leave() {
 	s := tt.saved[len(tt.saved)-1]
 	tt.saved = tt.saved[:len(tt.saved)-1]
-	tt.cur, tt.ctx = s.cur, s.ctx
+	tt.cur, tt.ctx, tt.iter = s.cur, s.ctx, s.iter
 }
 
 func (tt *c18Terms) field(id FieldID) *c18T {
@@ -133,16 +135,29 @@ func newC18Terms(p *Prog) *c18Terms {
 }
 
 func (tt *c18Terms) sourceID(c *ssa.Call) string {
-	// the source is identified by the frame that OWNS the instruction (a value computed in an outer
-	// frame and read through a parameter or a captured variable is still the same evaluation)
-	k := len(tt.ctx)
-	for ; k > 0; k-- {
-		if f := staticCallee(tt.ctx[k-1]); f != nil && origin(f) == origin(c.Parent()) {
+	// the source is identified by the chain of call sites that OWN it: the call site whose callee
+	// contains the instruction, then the call site whose callee contains that call, … (a value
+	// computed in an outer frame and read through a parameter or a captured variable from a deeper
+	// frame is still the same evaluation)
+	var owners []*ssa.Call
+	cur := ssa.Instruction(c)
+	limit := len(tt.ctx)
+	for {
+		k := limit
+		for ; k > 0; k-- {
+			if f := staticCallee(tt.ctx[k-1]); f != nil && origin(f) == origin(cur.Parent()) {
+				break
+			}
+		}
+		if k == 0 {
 			break
 		}
+		owners = append([]*ssa.Call{tt.ctx[k-1]}, owners...)
+		cur = tt.ctx[k-1]
+		limit = k - 1
 	}
 	key := ""
-	for _, x := range tt.ctx[:k] {
+	for _, x := range owners {
 		key += fmt.Sprintf("%p/", x)
 	}
 	key += fmt.Sprintf("%p", c)
@@ -203,6 +218,10 @@ func (tt *c18Terms) term(v ssa.Value, env c18Env, depth int) *c18T {
 	case *ssa.UnOp:
 		if x.Op != token.MUL {
 			return c18Unknown("unop " + x.Op.String())
+		}
+		if el := c18LiteralElem(x, tt.iter); el != nil {
+			// element of a literal slice at a known index (unrolled walk, or a constant index)
+			return rec(el)
 		}
 		if m, _, _, ok := c18KeyElement(x); ok {
 			// element of a complete walk over the (sorted) keys of m: the key of this iteration
